@@ -306,7 +306,7 @@ def pki(node_id, curve_name='p256', which=0, identity='own'):
     return _PKI[key]
 
 
-def generate_pki(node_id, curve_name='p256', which=0, short_coordinate=False):
+def generate_pki(node_id, curve_name='p256', which=0, short_coordinate=False, no_ski=False):
     ''' How fixtures/pki.json is made (tools/mkpki.py): one CA and three end-entity certificates. '''
     import datetime
     from cryptography import x509
@@ -338,8 +338,10 @@ def generate_pki(node_id, curve_name='p256', which=0, short_coordinate=False):
                    .add_extension(x509.BasicConstraints(ca=False, path_length=None), critical=True)
                    .add_extension(x509.KeyUsage(True, False, False, False, False, False, False, False, False), critical=False)
                    .add_extension(x509.ExtendedKeyUsage([x509.oid.ObjectIdentifier('1.3.6.1.5.5.7.3.35')]), critical=False)
-                   .add_extension(x509.SubjectKeyIdentifier.from_public_key(ee_key.public_key()), critical=False)
                    .add_extension(x509.AuthorityKeyIdentifier.from_issuer_public_key(ca_key.public_key()), critical=False))
+        if not no_ski:
+            # (RFC 5280 requires the subject key identifier of CA certificates only)
+            builder = builder.add_extension(x509.SubjectKeyIdentifier.from_public_key(ee_key.public_key()), critical=False)
         if eid is not None:
             text = eid.encode('ascii')
             other = x509.OtherName(x509.oid.ObjectIdentifier('1.3.6.1.5.5.7.8.11'), bytes([0x16, len(text)]) + text)
